@@ -12,9 +12,9 @@ package cidlink
 //@ func (LinkPrototype).BuildLink(hashsum) (l)
 //@   requires lp.Prefix.Version == 1 || (lp.Prefix.Version == 0 && lp.Prefix.MhType == 18 && (lp.Prefix.MhLength == 32 || lp.Prefix.MhLength == 0 - 1))
 //@   assigns[C20] nothing
-//@   ensures[C05] dyntype(l, "Link")
-//@   ensures[C05] lp.Prefix.Version == 1 ==> unbox(l, "Link").Cid.str == cid.cidstr(1, lp.Prefix.Codec, multihash.mhseq(hash.bsrc(hashsum), usedlen(lp.Prefix.MhType, lp.Prefix.MhLength, len(hashsum)), lp.Prefix.MhType), io.blen(multihash.mhseq(hash.bsrc(hashsum), usedlen(lp.Prefix.MhType, lp.Prefix.MhLength, len(hashsum)), lp.Prefix.MhType)))
-//@   ensures[C05] lp.Prefix.Version == 0 ==> unbox(l, "Link").Cid.str == cid.cidstr(0, 112, multihash.mhseq(hash.bsrc(hashsum), usedlen(lp.Prefix.MhType, lp.Prefix.MhLength, len(hashsum)), lp.Prefix.MhType), io.blen(multihash.mhseq(hash.bsrc(hashsum), usedlen(lp.Prefix.MhType, lp.Prefix.MhLength, len(hashsum)), lp.Prefix.MhType)))
+//@   ensures[C05,C06] dyntype(l, "Link")
+//@   ensures[C05,C06] lp.Prefix.Version == 1 ==> unbox(l, "Link").Cid.str == cid.cidstr(1, lp.Prefix.Codec, multihash.mhseq(hash.bsrc(hashsum), usedlen(lp.Prefix.MhType, lp.Prefix.MhLength, len(hashsum)), lp.Prefix.MhType), io.blen(multihash.mhseq(hash.bsrc(hashsum), usedlen(lp.Prefix.MhType, lp.Prefix.MhLength, len(hashsum)), lp.Prefix.MhType)))
+//@   ensures[C05,C06] lp.Prefix.Version == 0 ==> unbox(l, "Link").Cid.str == cid.cidstr(0, 112, multihash.mhseq(hash.bsrc(hashsum), usedlen(lp.Prefix.MhType, lp.Prefix.MhLength, len(hashsum)), lp.Prefix.MhType), io.blen(multihash.mhseq(hash.bsrc(hashsum), usedlen(lp.Prefix.MhType, lp.Prefix.MhLength, len(hashsum)), lp.Prefix.MhType)))
 
 // ---- the three choosers: codec and hash function are taken from the link prototype alone ----
 
